@@ -172,6 +172,11 @@ func (s *WriterOffline) Close() error {
 		return fmt.Errorf("error while merging: %w", err)
 	}
 
+	if len(s.segIDs) == 0 {
+		// nothing was indexed, so there is no segment and no snapshot to record
+		return nil
+	}
+
 	// open the merged segment
 	data, closer, err := s.directory.Load(ItemKindSegment, s.segIDs[0])
 	if err != nil {
